@@ -121,6 +121,7 @@ pub fn derive_plans(rng: &mut Rng, tier: Tier, count: usize) -> Vec<Plan> {
     let enable_skew = rng.chance(3, 4);
     let enable_identity = rng.chance(1, 2);
     let enable_repeat = tier == Tier::InProc && rng.chance(1, 2);
+    let enable_stall = tier == Tier::Exec && rng.chance(1, 2);
     while plans.len() < count {
         let roll = rng.below(100);
         let mut plan = if enable_extreme && roll < 5 {
@@ -184,6 +185,15 @@ pub fn derive_plans(rng: &mut Rng, tier: Tier, count: usize) -> Vec<Plan> {
                 _ => crate::sim_entropy::REF_CLOCK_STEP_NS,
             };
             plan.pid = rng.range(2, 4_000_000) as u32;
+        }
+        if enable_stall && rng.chance(1, 2) {
+            // a slow thread: the first created thread is gram's own worker (stall it rarely and
+            // briefly, it only adds latency); later ones exist only if a change creates them
+            let first = if rng.chance(1, 4) { rng.range(50, 300) as u32 } else { 0 };
+            plan.stall = vec![first];
+            for _ in 0..rng.range(1, 5) {
+                plan.stall.push(*rng.pick(&[0u32, 0, 200, 1000, 3000]));
+            }
         }
         let force_repeat = plan.kind == "repeat_only";
         if force_repeat || (enable_repeat && rng.chance(1, 6)) {
